@@ -397,6 +397,7 @@ func runStateDB(r *hx.R, n int, w *hx.W, _ []string) error {
 				b := r.Pick(4)
 				kind := r.Pick(3)
 				amt := r.Range(1, 30)
+				multiDenom := r.Chance(1, 2)
 				switch kind {
 				case 0:
 					op = "sdb precompile none"
@@ -423,7 +424,18 @@ func runStateDB(r *hx.R, n int, w *hx.W, _ []string) error {
 						}
 					case 2:
 						if amt > 0 {
-							if err := bank.SendCoins(cacheCtx, sdk.AccAddress(addr.Bytes()), sdk.AccAddress(sdbAddrs[b].Bytes()), sdk.NewCoins(sdk.NewInt64Coin("unibi", amt))); err != nil {
+							coins := sdk.NewCoins(sdk.NewInt64Coin("unibi", amt))
+							// half of the time the unibi travel in a coin set with other denoms around them ("aaa" sorts before
+							// "unibi", "zzz" after): the StateDB has to be kept in step with the bank for such a send too. Only when
+							// the send is going to succeed, so that funding the extra denoms does not create an account the model
+							// does not know of.
+							if multiDenom && bank.GetBalance(cacheCtx, sdk.AccAddress(addr.Bytes()), "unibi").Amount.GTE(sdk.NewInt(amt)) {
+								extra := sdk.NewCoins(sdk.NewInt64Coin("aaa", 3), sdk.NewInt64Coin("zzz", 2))
+								if err := testapp.FundAccount(bank, cacheCtx, sdk.AccAddress(addr.Bytes()), extra); err == nil {
+									coins = coins.Add(extra...)
+								}
+							}
+							if err := bank.SendCoins(cacheCtx, sdk.AccAddress(addr.Bytes()), sdk.AccAddress(sdbAddrs[b].Bytes()), coins); err != nil {
 								out = "insufficient"
 							}
 						}
